@@ -37,8 +37,7 @@ def judge(ctx, ev):
 
 
 def run(ctx):
-    ctx.mc("MC_AdapterMatch", "MC_AdapterMatch.cfg" if ctx.quick else "MC_AdapterMatch_thorough.cfg",
-           workers=12, timeout=3000)
+    ctx.mc("MC_AlignerAlg", "MC_AlignerAlg.cfg" if ctx.quick else "MC_AlignerAlg_thorough.cfg", workers=12, timeout=6000)
     ev = M.gen(ctx, ["C02", "C02nf"], 6000 if ctx.quick else 150000, 12000 if ctx.quick else 350000)
     ev += G.targeted_events(ctx.rng, 5000 if ctx.quick else 150000, ["C02", "C02nf"])
     for i, e in enumerate(ev):
